@@ -1,0 +1,424 @@
+// Copyright 2026 Dolthub, Inc.
+//
+// Licensed under the Apache License, Version 2.0 (the "License");
+// you may not use this file except in compliance with the License.
+// You may obtain a copy of the License at
+//
+//     http://www.apache.org/licenses/LICENSE-2.0
+//
+// Unless required by applicable law or agreed to in writing, software
+// distributed under the License is distributed on an "AS IS" BASIS,
+// WITHOUT WARRANTIES OR CONDITIONS OF ANY KIND, either express or implied.
+// See the License for the specific language governing permissions and
+// limitations under the License.
+
+//go:build verif
+
+package val
+
+// Machine-checked contracts for /verif (comment-only; see /verif/DESIGN.md §2.2).
+
+//@ func expectSize
+//@   property C15
+//@   nopanic
+//@   requires ByteSize(len(buf)) == sz
+//@   modifies nothing
+
+//@ func readBool
+//@   property C15
+//@   nopanic
+//@   requires len(val) == 1
+//@   ensures  result == (val[0] == 1)
+//@   modifies nothing
+//@ func writeBool
+//@   property C15
+//@   nopanic
+//@   requires len(buf) == 1
+//@   ensures  (buf[0] == 1) == val && (buf[0] == 0) == !val
+//@   modifies buf[0:1]
+//@ func compareBool
+//@   property C15
+//@   nopanic
+//@   ensures  result == verif_cmp3(!l && r, l == r)
+
+//@ func readInt8
+//@   property C15
+//@   nopanic
+//@   requires len(val) == 1
+//@   ensures  result == int8(val[0])
+//@   modifies nothing
+//@ func writeInt8
+//@   property C15
+//@   nopanic
+//@   requires len(buf) == 1
+//@   ensures  int8(buf[0]) == val
+//@   modifies buf[0:1]
+//@ func compareInt8
+//@   property C15
+//@   nopanic
+//@   ensures  result == verif_cmp3(l < r, l == r)
+
+//@ func readUint8
+//@   property C15
+//@   nopanic
+//@   requires len(val) == 1
+//@   ensures  result == val[0]
+//@   modifies nothing
+//@ func writeUint8
+//@   property C15
+//@   nopanic
+//@   requires len(buf) == 1
+//@   ensures  buf[0] == val
+//@   modifies buf[0:1]
+//@ func compareUint8
+//@   property C15
+//@   nopanic
+//@   ensures  result == verif_cmp3(l < r, l == r)
+
+//@ func readInt16
+//@   property C15
+//@   nopanic
+//@   requires len(val) == 2
+//@   ensures  result == int16(verif_le16(val))
+//@   modifies nothing
+//@ func writeInt16
+//@   property C15
+//@   nopanic
+//@   requires len(buf) == 2
+//@   ensures  int16(verif_le16(buf)) == val
+//@   modifies buf[0:2]
+//@ func compareInt16
+//@   property C15
+//@   nopanic
+//@   ensures  result == verif_cmp3(l < r, l == r)
+
+//@ func ReadUint16
+//@   property C15
+//@   nopanic
+//@   requires len(val) == 2
+//@   ensures  result == verif_le16(val)
+//@   modifies nothing
+//@ func WriteUint16
+//@   property C15
+//@   nopanic
+//@   requires len(buf) == 2
+//@   ensures  verif_le16(buf) == val
+//@   modifies buf[0:2]
+//@ func compareUint16
+//@   property C15
+//@   nopanic
+//@   ensures  result == verif_cmp3(l < r, l == r)
+
+//@ func readInt32
+//@   property C15
+//@   nopanic
+//@   requires len(val) == 4
+//@   ensures  result == int32(verif_le32(val))
+//@   modifies nothing
+//@ func writeInt32
+//@   property C15
+//@   nopanic
+//@   requires len(buf) == 4
+//@   ensures  int32(verif_le32(buf)) == val
+//@   modifies buf[0:4]
+//@ func compareInt32
+//@   property C15
+//@   nopanic
+//@   ensures  result == verif_cmp3(l < r, l == r)
+
+//@ func ReadUint32
+//@   property C15
+//@   nopanic
+//@   requires len(val) == 4
+//@   ensures  result == verif_le32(val)
+//@   modifies nothing
+//@ func writeUint32
+//@   property C15
+//@   nopanic
+//@   requires len(buf) == 4
+//@   ensures  verif_le32(buf) == val
+//@   modifies buf[0:4]
+//@ func compareUint32
+//@   property C15
+//@   nopanic
+//@   ensures  result == verif_cmp3(l < r, l == r)
+
+//@ func readInt64
+//@   property C15
+//@   nopanic
+//@   requires len(val) == 8
+//@   ensures  result == int64(verif_le64(val))
+//@   modifies nothing
+//@ func writeInt64
+//@   property C15
+//@   nopanic
+//@   requires len(buf) == 8
+//@   ensures  int64(verif_le64(buf)) == val
+//@   modifies buf[0:8]
+//@ func compareInt64
+//@   property C15
+//@   nopanic
+//@   ensures  result == verif_cmp3(l < r, l == r)
+
+//@ func readUint64
+//@   property C15
+//@   nopanic
+//@   requires len(val) == 8
+//@   ensures  result == verif_le64(val)
+//@   modifies nothing
+//@ func writeUint64
+//@   property C15
+//@   nopanic
+//@   requires len(buf) == 8
+//@   ensures  verif_le64(buf) == val
+//@   modifies buf[0:8]
+//@ func compareUint64
+//@   property C15
+//@   nopanic
+//@   ensures  result == verif_cmp3(l < r, l == r)
+
+//@ func readFloat32
+//@   property C15
+//@   nopanic
+//@   requires len(val) == 4
+//@   ensures  math.Float32bits(result) == verif_le32(val)
+//@   modifies nothing
+//@ func writeFloat32
+//@   property C15
+//@   nopanic
+//@   requires len(buf) == 4
+//@   ensures  verif_le32(buf) == math.Float32bits(val)
+//@   modifies buf[0:4]
+//@ func readFloat64
+//@   property C15
+//@   nopanic
+//@   requires len(val) == 8
+//@   ensures  math.Float64bits(result) == verif_le64(val)
+//@   modifies nothing
+//@ func writeFloat64
+//@   property C15
+//@   nopanic
+//@   requires len(buf) == 8
+//@   ensures  verif_le64(buf) == math.Float64bits(val)
+//@   modifies buf[0:8]
+//@ func compareFloat32
+//@   property C15
+//@   nopanic
+//@   ensures  result == verif_cmp3(l < r, l == r)
+//@ func compareFloat64
+//@   property C15
+//@   nopanic
+//@   ensures  result == verif_cmp3(l < r, l == r)
+
+//@ func readBit64
+//@   property C15
+//@   nopanic
+//@   requires len(val) == 8
+//@   ensures  result == verif_le64(val)
+//@   modifies nothing
+//@ func writeBit64
+//@   property C15
+//@   nopanic
+//@   requires len(buf) == 8
+//@   ensures  verif_le64(buf) == val
+//@   modifies buf[0:8]
+//@ func compareBit64
+//@   property C15
+//@   nopanic
+//@   ensures  result == verif_cmp3(l < r, l == r)
+
+//@ func readYear
+//@   property C15
+//@   nopanic
+//@   requires len(val) == 1
+//@   ensures  val[0] == 255 ==> result == 0
+//@   ensures  val[0] != 255 ==> result == int16(val[0]) + 1901
+//@   modifies nothing
+//@ func writeYear
+//@   property C15
+//@   nopanic
+//@   requires len(buf) == 1
+//@   requires val == 0 || (1901 <= val && val <= 2155)
+//@   ensures  val == 0 ==> buf[0] == 255
+//@   ensures  val != 0 ==> buf[0] == uint8(val - 1901) && buf[0] != 255
+//@   modifies buf[0:1]
+//@ func compareYear
+//@   property C15
+//@   nopanic
+//@   ensures  result == verif_cmp3(l < r, l == r)
+
+//@ func readTime
+//@   property C15
+//@   nopanic
+//@   requires len(val) == 8
+//@   ensures  result == int64(verif_le64(val))
+//@   modifies nothing
+//@ func writeTime
+//@   property C15
+//@   nopanic
+//@   requires len(buf) == 8
+//@   ensures  int64(verif_le64(buf)) == val
+//@   modifies buf[0:8]
+//@ func compareTime
+//@   property C15
+//@   nopanic
+//@   ensures  result == verif_cmp3(l < r, l == r)
+
+//@ func readEnum
+//@   property C15
+//@   nopanic
+//@   requires len(val) == 2
+//@   ensures  result == verif_le16(val)
+//@   modifies nothing
+//@ func writeEnum
+//@   property C15
+//@   nopanic
+//@   requires len(buf) == 2
+//@   ensures  verif_le16(buf) == val
+//@   modifies buf[0:2]
+//@ func compareEnum
+//@   property C15
+//@   nopanic
+//@   ensures  result == verif_cmp3(l < r, l == r)
+
+//@ func readSet
+//@   property C15
+//@   nopanic
+//@   requires len(val) == 8
+//@   ensures  result == verif_le64(val)
+//@   modifies nothing
+//@ func writeSet
+//@   property C15
+//@   nopanic
+//@   requires len(buf) == 8
+//@   ensures  verif_le64(buf) == val
+//@   modifies buf[0:8]
+//@ func compareSet
+//@   property C15
+//@   nopanic
+//@   ensures  result == verif_cmp3(l < r, l == r)
+
+//@ func readByteString
+//@   property C15
+//@   nopanic
+//@   requires len(val) >= 1
+//@   ensures  len(result) == len(val) - 1
+//@   ensures  forall i in 0..len(result): result[i] == val[i]
+//@   modifies nothing
+//@ func writeByteString
+//@   property C15
+//@   nopanic
+//@   requires len(buf) == len(val) + 1
+//@   ensures  forall i in 0..len(val): buf[i] == val[i]
+//@   ensures  buf[len(val)] == 0
+//@   modifies buf[0:len(buf)]
+
+//@ func readHash128
+//@   property C15
+//@   nopanic
+//@   requires len(val) == 16
+//@   ensures  len(result) == 16
+//@   ensures  forall i in 0..16: result[i] == val[i]
+//@   modifies nothing
+//@ func writeHash128
+//@   property C15
+//@   nopanic
+//@   requires len(buf) == 16 && len(val) == 16
+//@   ensures  forall i in 0..16: buf[i] == val[i]
+//@   modifies buf[0:16]
+
+//@ func writeRaw
+//@   property C15
+//@   nopanic
+//@   requires len(buf) == len(val)
+//@   ensures  forall i in 0..len(val): buf[i] == val[i]
+//@   modifies buf[0:len(buf)]
+
+//@ func writeAddr
+//@   property C15
+//@   nopanic
+//@   requires len(buf) == 20 && len(v) == 20
+//@   ensures  forall i in 0..20: buf[i] == v[i]
+//@   modifies buf[0:20]
+//@ func readAddr
+//@   property C15
+//@   nopanic
+//@   requires len(val) == 20
+//@   ensures  forall i in 0..20: result[i] == val[i]
+//@   modifies nothing
+
+//@ func readCell
+//@   property C15
+//@   nopanic
+//@   requires len(val) == 17
+//@   ensures  forall i in 0..17: res[i] == val[i]
+//@   modifies nothing
+//@ func writeCell
+//@   property C15
+//@   nopanic
+//@   requires len(buf) == 17
+//@   ensures  forall i in 0..17: buf[i] == v[i]
+//@   modifies buf[0:17]
+
+// ---- round-trip lemmas (verified against the contracts above, not the bodies)
+
+//@ lemma verif_lemma_rt_bool
+//@   property C15
+//@   requires len(buf) == 1
+//@ lemma verif_lemma_rt_int8
+//@   property C15
+//@   requires len(buf) == 1
+//@ lemma verif_lemma_rt_uint8
+//@   property C15
+//@   requires len(buf) == 1
+//@ lemma verif_lemma_rt_int16
+//@   property C15
+//@   requires len(buf) == 2
+//@ lemma verif_lemma_rt_uint16
+//@   property C15
+//@   requires len(buf) == 2
+//@ lemma verif_lemma_rt_int32
+//@   property C15
+//@   requires len(buf) == 4
+//@ lemma verif_lemma_rt_uint32
+//@   property C15
+//@   requires len(buf) == 4
+//@ lemma verif_lemma_rt_int64
+//@   property C15
+//@   requires len(buf) == 8
+//@ lemma verif_lemma_rt_uint64
+//@   property C15
+//@   requires len(buf) == 8
+//@ lemma verif_lemma_rt_float32
+//@   property C15
+//@   requires len(buf) == 4
+//@ lemma verif_lemma_rt_float64
+//@   property C15
+//@   requires len(buf) == 8
+//@ lemma verif_lemma_rt_bit64
+//@   property C15
+//@   requires len(buf) == 8
+//@ lemma verif_lemma_rt_year
+//@   property C15
+//@   requires len(buf) == 1 && (v == 0 || (1901 <= v && v <= 2155))
+//@ lemma verif_lemma_rt_time
+//@   property C15
+//@   requires len(buf) == 8
+//@ lemma verif_lemma_rt_enum
+//@   property C15
+//@   requires len(buf) == 2
+//@ lemma verif_lemma_rt_set
+//@   property C15
+//@   requires len(buf) == 8
+//@ lemma verif_lemma_rt_bytestring
+//@   property C15
+//@   requires len(buf) == len(v) + 1
+//@ lemma verif_lemma_rt_hash128
+//@   property C15
+//@   requires len(buf) == 16 && len(v) == 16
+//@ lemma verif_lemma_rt_addr
+//@   property C15
+//@   requires len(buf) == 20 && len(v) == 20
+//@ lemma verif_lemma_rt_cell
+//@   property C15
+//@   requires len(buf) == 17
